@@ -82,6 +82,9 @@ func judgeEngine(c *mc.Ctx, ec *engineCase, count bool) []sm.Problem {
 
 func runEngine(c *mc.Ctx) {
 	roots := cf.EngineRoots()
+	nMain := len(roots)
+	// the single-aspect refresh family: only the refresh history
+	roots = append(roots, cf.RefreshRoots()...)
 	for i := range roots {
 		if !c.Mine(i) {
 			continue
@@ -94,6 +97,12 @@ func runEngine(c *mc.Ctx) {
 		for _, h := range cf.Histories {
 			if len(h) > 0 && !roots[i].Wait {
 				continue
+			}
+			if i >= nMain && (len(h) == 0 || !strings.HasPrefix(h[0], "refresh:")) {
+				continue
+			}
+			if i >= nMain {
+				c.Inc("single_aspect_refreshes")
 			}
 			ec := &engineCase{Root: roots[i], Hist: h}
 			c.Inc("evaluations")
